@@ -38,6 +38,22 @@ M = {
  "C16-m2": ("C16", "VerifyingKey visitor accepts exactly one trailing element", "serde feature, a sequence format (JSON), input one element too long", {"C16": "caught (serde.de vk, 33-element JSON array)"}),
  "C17-m1": ("C17", "GroupEncoding::from_bytes for RistrettoPoint drops the y = 0 check", "group feature, the single encoding s = p - 1", {"C17": "caught (grp.from_bytes)"}),
  "C17-m2": ("C17", "from_repr_vartime clears bit 255 instead of rejecting it", "group feature, input with bit 255 set and low bits below l", {"C17": "caught (ff.from_repr 2^255, 2^256-1 ...)"}),
+ "C02d-m1": ("C02", "Scalar::batch_invert takes a fast path for n < 2 that never writes the inverse back", "a batch of exactly one element other than +-1", {"C02": "MISSED at first (the one-element batch drew 1 or l-1 half of the time, which are their own inverses); caught after short batches of generic elements were added"}),
+ "C02d-m2": ("C02", "From<u128> for Scalar converts through u64 (drops the high half)", "x >= 2^64", {}),
+ "C03d-m1": ("C03", "serial Sub<&AffineNielsPoint> keeps the denominators of Add (result off the curve)", "serial backend with precomputed tables; a negative NAF digit of the basepoint scalar in vartime double-base / precomputed Straus", {}),
+ "C03d-m2": ("C03", "SubAssign<&EdwardsPoint> computes rhs - self", "the -= operator with P - Q not of order <= 2", {}),
+ "C04d-m1": ("C04", "EdwardsPoint::mul_clamped and BasepointTable::mul_base_clamped reduce the clamped integer mod l (two cooperating sites: the existing test compares them with each other)", "a point with a torsion component", {}),
+ "C04d-m2": ("C04", "serial constant-time Straus skips the top radix-16 column (0..63)", "serial backend; a scalar of about 2^251 or more (digit 63 is the recoding carry)", {}),
+ "C06d-m1": ("C06", "RistrettoPoint::mul_base without precomputed tables goes through mul_base_clamped (X25519 clamping)", "a build without the precomputed-tables feature", {"C06": "MISSED at first (C06 built only with the tables feature; ristretto.rs has a cfg(not(precomputed-tables)) branch of its own); caught after a tables-off build was added to C06"}),
+ "C06d-m2": ("C06", "ConstantTimeEq for CompressedRistretto ignores byte 31", "two encodings that differ only in the last byte, compared with ct_eq", {"C06": "MISSED at first (no event compared the compressed types themselves); caught after enc.eq (==, ct_eq, Hash of CompressedRistretto / CompressedEdwardsY on strings differing in one bit per byte position) was added to C06 and C16"}),
+ "C07d-m1": ("C07", "EphemeralSecret::diffie_hellman multiplies by the clamped scalar reduced mod l (same idea as C07b-m1, found independently)", "a peer key outside the prime-order subgroup", {}),
+ "C07d-m2": ("C07", "mul_bits_be: the final conditional swap moved under cfg(feature = \"zeroize\") (same idea as C07b-m2, found independently)", "a build without the zeroize feature and an odd scalar", {}),
+ "C09d-m1": ("C09", "verify_prehashed_strict rejects only R = identity and weak keys (same idea as C09-m2 / C09c-m1, found independently)", "digest feature, prehashed strict entry point, small-order non-identity R with a mixed-order key", {}),
+ "C09d-m2": ("C09", "non-legacy check_scalar gains a fast path with the legacy mask 224: S in [l, 2^253) is reduced and accepted (same effect as C09b-m1)", "an adversarial non-canonical S below 2^253", {}),
+ "C14d-m1": ("C14", "Scalar::batch_invert builds its scratch vector with push (same idea as C14-m1 / C14c-m1, found independently)", "batch size n >= 5", {}),
+ "C14d-m2": ("C14", "EdwardsPoint::zeroize drops the T line (same idea as C14b-m2, found independently)", "inspection of the wiped point's storage", {}),
+ "C16d-m1": ("C16", "TryFrom<&[u8]> for SigningKey takes the first 32 bytes of a longer slice", "serde feature, a byte-string format (bincode), a payload longer than 32 bytes", {}),
+ "C16d-m2": ("C16", "TryFrom<&pkcs8::KeypairBytes> for SigningKey treats an undecodable embedded public key as absent", "pkcs8 feature; a PKCS#8 v2 document whose public-key bytes do not decompress", {"C16": "NOT CAUGHT: the driver is built without ed25519-dalek's pkcs8 feature, so the PKCS#8 decoding path is outside what the checks observe (a stated limit, DESIGN 14.11)"}),
  "C01b-m1": ("C01", "u32 sub_assign adds 2p instead of 16p before subtracting", "32-bit serial backend; a subtrahend with more than one excess bit (still inside the documented b < 1.75)", {"C01": "caught (s32 fe.sub at the limb alphabet's bound)", "C11": "the checked build also panics on it"}),
  "C01b-m2": ("C01", "IFMA F51x4Reduced::square pre-doubles x0 (madd52 reads only the low 52 bits)", "nightly unstable_avx512 build on an avx512ifma CPU; a reduced limb at or above 2^51", {"C01": "caught (v512 vec.op1 square on limbs produced by reduce at 2^51)"}),
  "C02b-m1": ("C02", "Scalar52::from_bytes_wide fuses the two Montgomery reductions (exceeds the reducer's input bound)", "low 260 bits within 0.2% of 2^260, large high part: about 1 in 1.2 million random inputs", {"C02": "caught by the reducer-bound family added after reading this change's class (first run: 1 hit of 400; family enlarged to 4000: 3+ hits); AP_MontReduce52 states the bound for the specification"}),
